@@ -72,6 +72,14 @@ def gen_direct_case(rnd):
         s = rnd.uniform(0, 2e7)
     else:
         s = rnd.choice([0.0, 2e7, 0.001, 1.0, 1e7, 10001965.729])
+    if rnd.random() < 0.05:
+        # long lines that hug the equator without lying on it (cos^2 of the equatorial azimuth from 1e-9 to 1e-3):
+        # the series coefficients are tiny there but the line is long
+        v = 10 ** rnd.uniform(-4.5, -1.5)
+        lat1 = rnd.choice([1, -1]) * v * rnd.uniform(0.0, 1.0)
+        az = rnd.choice([90.0, 270.0]) + rnd.choice([1, -1]) * v * rnd.uniform(0.0, 1.0)
+        s = rnd.uniform(2e6, 2e7)
+        kind = 'near-equatorial-long'
     argt = 'float'
     if rnd.random() < 0.2:
         argt = rnd.choice(ax.ANGLE_CLASSES)
@@ -82,7 +90,28 @@ def gen_direct_case(rnd):
             lon1 = max(-180.0, min(180.0, round(lon1 * 3600 / step) * step / 3600.0))
             az = max(0.0, min(360.0, round(az * 3600 / step) * step / 3600.0))
             kind = kind + '+lattice'
-    return {'ell': ell, 'lat1': lat1, 'lon1': lon1, 'az': az, 's': s, 'argt': argt, 'kind': kind}
+    case = {'ell': ell, 'lat1': lat1, 'lon1': lon1, 'az': az, 's': s, 'argt': argt, 'kind': kind}
+    delivery(rnd, case, ('lat1', 'lon1', 'az', 's'), lims={'lat1': (-90, 90), 'lon1': (-180, 180), 'az': (0, 360), 's': (0, 2e7)})
+    return case
+
+
+def delivery(rnd, case, keys, lims):
+    """How the same arguments are delivered: another numeric representation (plain-number arguments only; whole values for
+    the integer kinds), by keyword, with the default ellipsoid left out."""
+    if case.get('argt', 'float') == 'float':
+        rep = core.choose_rep(rnd)
+        if rep:
+            case['rep'] = rep
+            if core.rep_wants_integers(rep):
+                for k in keys:
+                    lo, hi = lims[k]
+                    case[k] = float(min(max(round(case[k]), lo), hi))
+                case['kind'] = str(case.get('kind')) + '+whole'
+    shape = core.choose_shape(rnd)
+    if shape:
+        case['shape'] = shape
+    if case['ell'] == 'grs80' and rnd.random() < 0.3:
+        case['omit_default_ellipsoid'] = True
 
 
 # ---------------------------------------------------------------------------------------------
@@ -128,6 +157,18 @@ def run_unjudged_calls(ns, ctx, case):
         core.unjudged(ctx, getattr(ns.geodesy, call['fn']), *call['args'], tmwork.ell_obj(ns, call['ell']))
 
 
+def call_geodesy(ns, ctx, case, fname, names, values):
+    """The judged call, delivered the way the case says (keywords, default ellipsoid left out)."""
+    omit = ('ellipsoid',) if case.get('omit_default_ellipsoid') and case['ell'] == 'grs80' else ()
+    if case.get('shape'):
+        ctx.count('call_shape:' + case['shape'])
+    if omit:
+        ctx.count('default_ellipsoid_left_out')
+    if case.get('rep'):
+        ctx.count('argument_representation:' + case['rep'])
+    return core.shaped_call(getattr(ns.geodesy, fname), names, values, case.get('shape'), omit)
+
+
 def judge_direct(ns, ctx, case):
     run_unjudged_calls(ns, ctx, case)
     ell = tmwork.ell_obj(ns, case['ell'])
@@ -152,7 +193,8 @@ def judge_direct(ns, ctx, case):
         return
     ctx.judged()
     try:
-        la, lo, back = ns.geodesy.vincdir(args[0], args[1], args[2], s, ell)
+        la, lo, back = call_geodesy(ns, ctx, case, 'vincdir', ('lat1', 'lon1', 'azimuth1to2', 'ell_dist', 'ellipsoid'),
+                                    core.rep_values(case.get('rep'), args[0], args[1], args[2], s) + (ell,))
     except Exception as e:
         ctx.violation('vincdir:exception', case, {'exception': repr(e)})
         return
@@ -268,8 +310,19 @@ def gen_inverse_case(rnd):
         la2 = max(-90.0, min(90.0, la2))
         if geod.sphsep(la1, lo1, la2, lo2) <= 178.0:
             break
-    return {'ell': ell, 'lat1': la1, 'lon1': lo1, 'lat2': la2, 'lon2': lo2, 'kind': kind,
+    case = {'ell': ell, 'lat1': la1, 'lon1': lo1, 'lat2': la2, 'lon2': lo2, 'kind': kind,
             'shift': rnd.choice([360.0, -360.0, round(rnd.uniform(-360, 360), 6), 0.5])}
+    if kind not in ('coincident', 'coincident-mod-360') and rnd.random() < 0.12:
+        # the same points held in one of the angle classes (whole arc-seconds or tenths, so that every notation holds
+        # them exactly enough: the judged pair is the pair the objects denote)
+        case['argt'] = rnd.choice(ax.ANGLE_CLASSES)
+        step = rnd.choice([1, 60, 0.1, 3600])
+        for k, lim in (('lat1', 90.0), ('lon1', 180.0), ('lat2', 90.0), ('lon2', 180.0)):
+            case[k] = max(-lim, min(lim, round(case[k] * 3600 / step) * step / 3600.0))
+        case['kind'] = kind + '+angle-objects'
+    delivery(rnd, case, ('lat1', 'lon1', 'lat2', 'lon2'),
+             lims={'lat1': (-90, 90), 'lon1': (-180, 180), 'lat2': (-90, 90), 'lon2': (-180, 180)})
+    return case
 
 
 def _lever(s, a):
@@ -282,13 +335,29 @@ def judge_inverse(ns, ctx, case, aspects=('closure', 'reverse', 'symmetry', 'shi
     ell = tmwork.ell_obj(ns, case['ell'])
     a, invf = tmwork.ell_published(case['ell'])
     la1, lo1, la2, lo2 = case['lat1'], case['lon1'], case['lat2'], case['lon2']
+    args = (la1, lo1, la2, lo2)
+    argt = case.get('argt', 'float')
+    if argt != 'float':
+        try:
+            objs = [ax.make_object(ns.angles, argt, v) for v in args]
+        except ValueError:
+            ctx.count('argument_object_not_constructible')
+            return None
+        den = [ax.denote(o) for o in objs]
+        if any(d is None for d in den):
+            raise core.Inconclusive('harness built an invalid HP numeral')
+        # the judged pair is the pair of points the objects denote
+        la1, lo1, la2, lo2 = (float(d) for d in den)
+        args = tuple(objs)
+        ctx.count('angle_class_args')
     sep = geod.sphsep(la1, lo1, la2, lo2)
     if sep > 178.0 or not (-90 <= la1 <= 90 and -90 <= la2 <= 90):
         ctx.count('out_of_domain')
         return None
     ctx.judged()
     try:
-        s, a12, a21 = ns.geodesy.vincinv(la1, lo1, la2, lo2, ell)
+        s, a12, a21 = call_geodesy(ns, ctx, case, 'vincinv', ('lat1', 'lon1', 'lat2', 'lon2', 'ellipsoid'),
+                                   core.rep_values(case.get('rep'), *args) + (ell,))
     except Exception as e:
         ctx.violation('vincinv:exception:' + type(e).__name__, case, {'exception': repr(e), 'separation_deg': sep})
         return None
